@@ -31,7 +31,7 @@ func init() { sim.Register(c10{}) }
 func (c10) ID() string    { return "C10" }
 func (c10) Level() string { return "fault_enumeration" }
 func (c10) Rule() string {
-	return "seeded programs over the slice-taking / slice-returning public surface (Full/Zeros/Ones/RandU/RandN dims, TensorOf outer slice and rows, Reshape/Broadcast shape, Slice/Patch index, Concat list, At index, Shape() result, Initializer.Init shape, FC.Forward inputs) followed by further operations, BackPropagate, SGD.Update and ResetGradContext. Fault alias-scribble: for each program every registered slice x {immediately after the call, just before each later BackPropagate, at the end} (quick) or x every later instant (thorough) is executed with the caller overwriting that slice; oracle = twin run without scribble, every observation bitwise equal; immutability invariants after every step of every run. Non-trivial: a program in which a scribble landed between a forward call and a later BackPropagate whose graph contains that call's result. Distinct: hash of the program's (op, operands, arguments-shape) sequence."
+	return "seeded programs over the slice-taking / slice-returning public surface (Full/Zeros/Ones/RandU/RandN dims, TensorOf outer slice and rows, Reshape/Broadcast shape, Slice/Patch index, Concat list, At index, Shape() result, Initializer.Init shape, FC.Forward inputs) followed by further operations, BackPropagate, SGD.Update and ResetGradContext. Fault alias-scribble: for each program every registered slice x {immediately after the call, just before each later BackPropagate, at the end} (quick) or x every later instant (thorough) is executed with the caller overwriting that slice; oracle = twin run without scribble, every observation bitwise equal; immutability invariants after every step of every run. Non-trivial: a program in which a scribble landed between a forward call and a later BackPropagate whose graph contains that call's result. Distinct: hash of the program's (op, operands, arguments-shape) sequence. Also: rejected calls from the shared invalid-call catalogue (nothing may change), callers that reuse one []int per length, comparison masks, a long-lived leaf collecting 34-90 gradient terms; after every call the caller's argument slices must hold what the caller put there."
 }
 func (c10) Assumptions() []string {
 	return []string{
@@ -42,7 +42,7 @@ func (c10) Assumptions() []string {
 }
 func (c10) Extra() map[string]any {
 	e := baseExtra()
-	e["fault_kinds"] = []string{"alias-scribble"}
+	e["fault_kinds"] = []string{"alias-scribble", "invalid-call (the shared catalogue of rejected calls)", "caller reuses one []int per length for every call"}
 	return e
 }
 
